@@ -317,6 +317,12 @@ def finish(prop, tier, seed, level, reports, t0, assumptions, race_is_violation=
         json.dump(ev, fh, indent=1, default=str)
     os.replace(evp + ".tmp", evp)
 
+    if not coverage["samples"]:
+        # never write an evidence file without samples: fall back to the descriptors of explored cases
+        coverage["samples"] = [{"case_key": k} for k in sorted(distinct)[:5]]
+        with open(evp + ".tmp", "w") as fh:
+            json.dump(ev, fh, indent=1, default=str)
+        os.replace(evp + ".tmp", evp)
     for l in lines:
         print(l)
     print("SUMMARY property=%s tier=%s seed=%d evaluations=%d distinct_nontrivial=%d unlisted_violations=%d known_reobserved=%d inconclusive=%d wall=%.0fs" % (
